@@ -363,6 +363,12 @@ func (s SourceX) ReadAt(p []byte, off int64) (int, error) {
 	if n < len(p) {
 		return n, io.EOF
 	}
+	if src.Frag != nil && src.Frag.EOFWithData && off+int64(n) == int64(len(src.data)) {
+		// the io.ReaderAt contract: a full read that ends at the end of the input
+		// may return either nil or io.EOF
+		src.Stats.EOFData++
+		return n, io.EOF
+	}
 	return n, nil
 }
 
